@@ -2,6 +2,9 @@ package main
 
 import (
 	"bytes"
+	"crypto"
+	"crypto/rand"
+	"crypto/rsa"
 	"crypto/sha256"
 	"crypto/x509"
 	"encoding/binary"
@@ -105,7 +108,10 @@ func p7Eval(c *Ctx, cs Case, prop string) {
 	// Spec validation: on seeds and targeted forgeries (well-formed DER) the Lean Spec must agree with the
 	// independent encoding/asn1 + crypto/rsa verifier; random mutations are judged by the Spec alone
 	// (the stdlib decoder is stricter about unsigned structure, which the property does not ask for)
-	if cl := cs.S("class"); cl == "seed" || strings.HasPrefix(cl, "forge-") || cl == "drop-signed-attrs" || cl == "third-party" {
+	// (blobs with fields the SignedData syntax does not have are left to the Spec as well: encoding/asn1 skips what
+	// follows the last field it knows)
+	if cl := cs.S("class"); strings.Contains(cl, "/outside-the-syntax/") {
+	} else if cl == "seed" || strings.HasPrefix(cl, "forge-") || strings.HasPrefix(cl, "two-signers/") || cl == "drop-signed-attrs" || cl == "third-party" {
 		if std, parsed := stdVerify(blob, cert, nil); parsed && fmt.Sprint(std) != spec {
 			c.Fail(Failure{Kind: "tie", What: "Spec validation: Spec.cmsVerify and the stdlib-based verifier disagree", Case: cs, Model: "Spec.cmsVerify=" + spec, Go: fmt.Sprintf("stdlib-verifier=%v", std)})
 		}
@@ -477,6 +483,75 @@ func forgeries(c *Ctx, s p7Seed, emit func(class string, b []byte)) {
 			return true
 		})
 	}
+	// several signer entries that differ in their ATTRIBUTES: the content is replaced (where the blob encapsulates
+	// it), one entry carries attributes re-bound to the replaced content (messageDigest := its SHA-256) under the
+	// original signature, the other entry the original attributes (same length) and the original signature; either
+	// entry names the certificate or somebody else. No entry has both a signature over its own attributes and a
+	// digest matching the content, whatever the order: nothing may be taken from the neighbouring entry.
+	replaceAndRebind := func(r *derNode) ([]byte, bool) {
+		sd := sdOf(r)
+		if p7TamperContent(sd) {
+			return p7ContentDigest(sd)
+		}
+		h := sha256.Sum256([]byte("some other content"))
+		return h[:], true // detached: there is no content inside the blob to replace
+	}
+	edit("forge-content+rebound-digest", func(r *derNode) bool {
+		set := signerSet(r)
+		if set == nil {
+			return false
+		}
+		d, ok := replaceAndRebind(r)
+		return ok && p7SetMessageDigest(set.kids[0], d)
+	})
+	type entryKind struct{ named, rebound bool }
+	entryName := func(e entryKind) string {
+		n := map[bool]string{true: "named", false: "foreign"}[e.named]
+		return n + map[bool]string{true: "-rebound", false: "-original"}[e.rebound]
+	}
+	for _, v := range [][2]entryKind{
+		{{true, true}, {false, false}}, {{true, true}, {true, false}},
+		{{false, false}, {true, true}}, {{true, false}, {true, true}},
+		{{false, true}, {true, false}}, {{true, false}, {false, true}},
+	} {
+		v := v
+		edit("two-signers/attrs/"+entryName(v[0])+"+"+entryName(v[1]), func(r *derNode) bool {
+			set := signerSet(r)
+			if set == nil {
+				return false
+			}
+			d, ok := replaceAndRebind(r)
+			if !ok {
+				return false
+			}
+			entries := []*derNode{set.kids[0], set.kids[0].clone()}
+			for i, e := range entries {
+				if v[i].rebound && !p7SetMessageDigest(e, d) {
+					return false
+				}
+				if !v[i].named && !otherIdentity(e) {
+					return false
+				}
+			}
+			set.kids = entries
+			return true
+		})
+	}
+	// a blob inside a blob. The content is replaced and the whole entry consistently re-signed by ANOTHER key
+	// (identity, certificate, message digest, signature: a genuine signature of that other signer), and the
+	// original, genuine blob travels along in every place of the outer one that can hold a blob: unsigned
+	// attributes, certificates, CRLs, content, further signer entries, trailing fields. The verdict for a
+	// certificate must come from the outer blob's own signer entries and content, never from a passenger.
+	if okey, ocert := keyOfCert(c, s.other); okey != nil {
+		r := roots[0].clone()
+		p7TamperContent(sdOf(r)) // a detached blob has no content inside to replace
+		if p7ResignBy(sdOf(r), okey, ocert) {
+			outer := r.encode()
+			emit("forge-resigned-by-other", outer)
+			p7Carriers(outer, s.blob, func(pos string, b []byte) { emit("forge-carrier/"+pos, b) })
+			p7Carriers(s.blob, outer, func(pos string, b []byte) { emit("forge-carried-foreign/"+pos, b) })
+		}
+	}
 	// replace every OID of the blob by a sibling algorithm / type, alone and together with a content change
 	// (an algorithm identifier must never switch a check off)
 	oidSwaps(s.blob, func(class string, b []byte) {
@@ -495,6 +570,285 @@ func forgeries(c *Ctx, s p7Seed, emit func(class string, b []byte)) {
 			}
 		})
 		return done
+	})
+}
+
+// ---- helpers on the DER tree of a SignedData ----
+
+func p7SignedDataOf(r *derNode) *derNode {
+	if len(r.kids) == 2 && r.kids[0].tag == 0x06 && r.kids[1].tag == 0xa0 && len(r.kids[1].kids) == 1 {
+		return r.kids[1].kids[0]
+	}
+	return r
+}
+
+// p7TamperContent changes one bit of the encapsulated content (the last octet of its first sizeable leaf)
+func p7TamperContent(sd *derNode) bool {
+	if len(sd.kids) < 3 || len(sd.kids[2].kids) < 2 {
+		return false
+	}
+	changed := false
+	sd.kids[2].kids[1].walk(nil, func(n, _ *derNode) {
+		if !n.compound && len(n.leaf) >= 20 && !changed {
+			n.leaf[len(n.leaf)-1] ^= 0x55
+			changed = true
+		}
+	})
+	return changed
+}
+
+// p7ContentDigest: SHA-256 of the value octets of the element inside the [0] of the encapsulated content
+// (RFC 2315 section 9.3: the contents octets of the content, without identifier and length)
+func p7ContentDigest(sd *derNode) ([]byte, bool) {
+	if len(sd.kids) < 3 || len(sd.kids[2].kids) < 2 || len(sd.kids[2].kids[1].kids) < 1 {
+		return nil, false
+	}
+	el := sd.kids[2].kids[1].kids[0]
+	var body []byte
+	if el.compound {
+		for _, k := range el.kids {
+			body = append(body, k.encode()...)
+		}
+	} else {
+		body = el.leaf
+	}
+	h := sha256.Sum256(body)
+	return h[:], true
+}
+
+func p7SignedAttrs(si *derNode) *derNode {
+	for _, k := range si.kids {
+		if k.tag == 0xa0 {
+			return k
+		}
+	}
+	return nil
+}
+
+var oidMessageDigestDER = []byte{0x2a, 0x86, 0x48, 0x86, 0xf7, 0x0d, 0x01, 0x09, 0x04}
+
+// p7SetMessageDigest overwrites the messageDigest attribute of one signer entry
+func p7SetMessageDigest(si *derNode, d []byte) bool {
+	at := p7SignedAttrs(si)
+	if at == nil {
+		return false
+	}
+	for _, a := range at.kids {
+		if a.tag == 0x30 && len(a.kids) == 2 && bytes.Equal(a.kids[0].leaf, oidMessageDigestDER) && len(a.kids[1].kids) == 1 && !a.kids[1].kids[0].compound {
+			a.kids[1].kids[0].leaf = append([]byte{}, d...)
+			return true
+		}
+	}
+	return false
+}
+
+func p7SetIdentity(si *derNode, cert *x509.Certificate) bool {
+	if len(si.kids) < 2 || len(si.kids[1].kids) != 2 {
+		return false
+	}
+	o, _ := parseDER(cert.RawIssuer)
+	if len(o) != 1 {
+		return false
+	}
+	ias := si.kids[1]
+	ias.kids[0] = o[0]
+	ias.kids[1].leaf = cert.SerialNumber.Bytes()
+	if len(ias.kids[1].leaf) == 0 || ias.kids[1].leaf[0]&0x80 != 0 {
+		ias.kids[1].leaf = append([]byte{0}, ias.kids[1].leaf...)
+	}
+	return true
+}
+
+// keyOfCert finds the pool key a certificate of the harness was made with
+func keyOfCert(c *Ctx, cert *x509.Certificate) (*rsa.PrivateKey, *x509.Certificate) {
+	if cert == nil {
+		return nil, nil
+	}
+	pub, ok := cert.PublicKey.(*rsa.PublicKey)
+	if !ok {
+		return nil, nil
+	}
+	for i := 0; i < 4; i++ {
+		if k := poolKey(c, 2048, i); k.N.Cmp(pub.N) == 0 {
+			return k, cert
+		}
+	}
+	return nil, nil
+}
+
+// p7ResignBy turns the first signer entry into a genuine signature of (key, cert) over the blob as it now is:
+// message digest of the encapsulated content (if any), identity, embedded certificate, RSA-SHA256 signature
+// over the DER SET of the attributes
+func p7ResignBy(sd *derNode, key *rsa.PrivateKey, cert *x509.Certificate) bool {
+	if len(sd.kids) == 0 {
+		return false
+	}
+	set := sd.kids[len(sd.kids)-1]
+	if set.tag != 0x31 || len(set.kids) == 0 {
+		return false
+	}
+	si := set.kids[0]
+	at := p7SignedAttrs(si)
+	if at == nil || !p7SetIdentity(si, cert) {
+		return false
+	}
+	if d, ok := p7ContentDigest(sd); ok && !p7SetMessageDigest(si, d) {
+		return false
+	}
+	signed := at.encode()
+	signed[0] = 0x31
+	h := sha256.Sum256(signed)
+	sig, err := rsa.SignPKCS1v15(rand.Reader, key, crypto.SHA256, h[:])
+	if err != nil {
+		return false
+	}
+	done := false
+	for i := len(si.kids) - 1; i >= 0 && !done; i-- {
+		if si.kids[i].tag == 0x04 {
+			si.kids[i].leaf, done = sig, true
+		}
+	}
+	if !done {
+		return false
+	}
+	for _, k := range sd.kids[:len(sd.kids)-1] {
+		if k.tag == 0xa0 {
+			cn, _ := parseDER(cert.Raw)
+			if len(cn) == 1 {
+				k.compound, k.leaf, k.kids = true, nil, cn
+			}
+		}
+	}
+	return true
+}
+
+// attribute types under which tools carry a whole SignedData in the UNSIGNED attributes of a signer entry
+var nestingAttrOIDs = []struct {
+	name string
+	der  []byte
+}{
+	{"spc-nested-signature", []byte{0x2b, 0x06, 0x01, 0x04, 0x01, 0x82, 0x37, 0x02, 0x04, 0x01}},     // 1.3.6.1.4.1.311.2.4.1
+	{"ms-rfc3161-timestamp", []byte{0x2b, 0x06, 0x01, 0x04, 0x01, 0x82, 0x37, 0x03, 0x03, 0x01}},     // 1.3.6.1.4.1.311.3.3.1
+	{"aa-timestamp-token", []byte{0x2a, 0x86, 0x48, 0x86, 0xf7, 0x0d, 0x01, 0x09, 0x10, 0x02, 0x0e}}, // 1.2.840.113549.1.9.16.2.14
+	{"unknown-attribute", []byte{0x88, 0x37, 0x81, 0xcb, 0xad, 0x07, 0x01}},                          // 2.999.…
+}
+
+// p7Carriers emits `outer` with the blob `inner` placed in every position of a SignedData that can hold one
+func p7Carriers(outer, inner []byte, emit func(position string, b []byte)) {
+	or, ok1 := parseDER(outer)
+	ir, ok2 := parseDER(inner)
+	if !ok1 || !ok2 || len(or) != 1 || len(ir) != 1 {
+		return
+	}
+	in := ir[0]
+	inSD := p7SignedDataOf(in)
+	var inSigners []*derNode
+	if len(inSD.kids) > 0 && inSD.kids[len(inSD.kids)-1].tag == 0x31 {
+		inSigners = inSD.kids[len(inSD.kids)-1].kids
+	}
+	edit := func(pos string, f func(r, sd, signers *derNode) bool) {
+		r := or[0].clone()
+		sd := p7SignedDataOf(r)
+		if len(sd.kids) < 4 || sd.kids[len(sd.kids)-1].tag != 0x31 || len(sd.kids[len(sd.kids)-1].kids) == 0 {
+			return
+		}
+		if f(r, sd, sd.kids[len(sd.kids)-1]) {
+			emit(pos, r.encode())
+		}
+	}
+	node := func(tag byte, kids ...*derNode) *derNode { return &derNode{tag: tag, compound: true, kids: kids} }
+	unauth := func(si *derNode, attr *derNode) {
+		if last := si.kids[len(si.kids)-1]; last.tag == 0xa1 && last.compound {
+			last.kids = append(last.kids, attr)
+			return
+		}
+		si.kids = append(si.kids, node(0xa1, attr))
+	}
+	// 1. unsigned attributes of the first and of the last signer entry
+	for _, o := range nestingAttrOIDs {
+		o := o
+		edit("unsigned-attribute/"+o.name, func(r, sd, signers *derNode) bool {
+			unauth(signers.kids[0], node(0x30, &derNode{tag: 0x06, leaf: o.der}, node(0x31, in.clone())))
+			return true
+		})
+	}
+	edit("unsigned-attribute/two-values", func(r, sd, signers *derNode) bool {
+		o := nestingAttrOIDs[0]
+		unauth(signers.kids[len(signers.kids)-1], node(0x30, &derNode{tag: 0x06, leaf: o.der}, node(0x31, in.clone(), in.clone())))
+		return true
+	})
+	// a counter signature carries a signer entry, not a SignedData
+	if len(inSigners) > 0 {
+		edit("unsigned-attribute/countersignature", func(r, sd, signers *derNode) bool {
+			unauth(signers.kids[0], node(0x30, &derNode{tag: 0x06, leaf: []byte{0x2a, 0x86, 0x48, 0x86, 0xf7, 0x0d, 0x01, 0x09, 0x06}}, node(0x31, inSigners[0].clone())))
+			return true
+		})
+	}
+	// 2. certificates, CRLs
+	edit("extra-certificate", func(r, sd, signers *derNode) bool {
+		for _, k := range sd.kids[3 : len(sd.kids)-1] {
+			if k.tag == 0xa0 && k.compound {
+				k.kids = append(k.kids, in.clone())
+				return true
+			}
+		}
+		return false
+	})
+	edit("crls", func(r, sd, signers *derNode) bool {
+		n := len(sd.kids)
+		sd.kids = append(sd.kids[:n-1:n-1], node(0xa1, in.clone()), signers)
+		return true
+	})
+	// 3. content: a further element behind the content, a further field of the content info, the content itself
+	edit("extra-content-element", func(r, sd, signers *derNode) bool {
+		if len(sd.kids[2].kids) < 2 || !sd.kids[2].kids[1].compound {
+			return false
+		}
+		sd.kids[2].kids[1].kids = append(sd.kids[2].kids[1].kids, in.clone())
+		return true
+	})
+	edit("outside-the-syntax/extra-content-info-field", func(r, sd, signers *derNode) bool {
+		if !sd.kids[2].compound {
+			return false
+		}
+		sd.kids[2].kids = append(sd.kids[2].kids, in.clone())
+		return true
+	})
+	edit("as-content", func(r, sd, signers *derNode) bool {
+		if !sd.kids[2].compound || len(sd.kids[2].kids) != 1 {
+			return false // only where the outer blob has no content of its own
+		}
+		sd.kids[2].kids = append(sd.kids[2].kids, node(0xa0, in.clone()))
+		return true
+	})
+	// 4. the inner blob's signer entries next to the outer ones
+	if len(inSigners) > 0 {
+		edit("signer-entries-appended", func(r, sd, signers *derNode) bool {
+			for _, e := range inSigners {
+				signers.kids = append(signers.kids, e.clone())
+			}
+			return true
+		})
+		edit("signer-entries-prepended", func(r, sd, signers *derNode) bool {
+			var ks []*derNode
+			for _, e := range inSigners {
+				ks = append(ks, e.clone())
+			}
+			signers.kids = append(ks, signers.kids...)
+			return true
+		})
+	}
+	// 5. trailing fields
+	edit("outside-the-syntax/signed-data-trailing-field", func(r, sd, signers *derNode) bool {
+		sd.kids = append(sd.kids, in.clone())
+		return true
+	})
+	edit("outside-the-syntax/second-signed-data", func(r, sd, signers *derNode) bool {
+		if sd == r || len(r.kids) != 2 {
+			return false
+		}
+		r.kids[1].kids = append(r.kids[1].kids, inSD.clone())
+		return true
 	})
 }
 
@@ -634,7 +988,7 @@ func c04Gen(c *Ctx) {
 
 func init() {
 	register("C04", &PropDef{
-		Rule:   "seeds: library-signed data (detached) and SpcIndirectDataContent blobs under six certificate shapes (one CA-issued with issuer different from subject, one whose own signature is sha384WithRSA, one with a hand-encoded UTF8String/emailAddress name), the sbsign/sbvarsign fixtures of the repository, OpenSSL smime/cms blobs when the CLI is present, OpenSSL-shaped CMS blobs built in the harness; each verified under the signer's certificate, a twin certificate (same issuer and serial, another RSA key), Ed25519 and ECDSA twins (same issuer and serial, no RSA key at all) and an unrelated one. Derived blobs: single-bit/byte changes (quick: 40 stratified positions; thorough: every position of blobs <= 2 KiB), a bit flip inside every DER leaf (signature, digest, integers, OIDs), delete/duplicate/swap of the children of every constructed node, truncations, and targeted forgeries (content, content type, certificates, signer identity, message digest, dropped signed attributes, every object identifier outside the certificates replaced by each of seven sibling OIDs alone and together with a content change, and six two-signer-entry combinations of {names the certificate, names another} x {valid, damaged signature}). Every case is non-trivial; distinct = distinct (blob, certificate).",
+		Rule:   "seeds: library-signed data (detached) and SpcIndirectDataContent blobs under six certificate shapes (one CA-issued with issuer different from subject, one whose own signature is sha384WithRSA, one with a hand-encoded UTF8String/emailAddress name), the sbsign/sbvarsign fixtures of the repository, OpenSSL smime/cms blobs when the CLI is present, OpenSSL-shaped CMS blobs built in the harness; each verified under the signer's certificate, a twin certificate (same issuer and serial, another RSA key), Ed25519 and ECDSA twins (same issuer and serial, no RSA key at all) and an unrelated one. Derived blobs: single-bit/byte changes (quick: 40 stratified positions; thorough: every position of blobs <= 2 KiB), a bit flip inside every DER leaf (signature, digest, integers, OIDs), delete/duplicate/swap of the children of every constructed node, truncations, and targeted forgeries (content, content type, certificates, signer identity, message digest, dropped signed attributes, every object identifier outside the certificates replaced by each of seven sibling OIDs alone and together with a content change, six two-signer-entry combinations of {names the certificate, names another} x {valid, damaged signature}, six two-signer-entry combinations over replaced content of {names the certificate, names another} x {original attributes, attributes of the same length re-bound to the replaced content (messageDigest := its SHA-256)} under the original signature in both orders - including forged entry first, original attributes second -, the single re-bound entry, the blob consistently re-signed by another key over replaced content, and that re-signed blob carrying the genuine one (and the reverse) in every place that can hold a blob: unsigned attributes of a signer entry under the SpcNestedSignature / MS RFC 3161 timestamp / timeStampToken / an unknown attribute type with one and two values, a counter-signature attribute holding the other blob's signer entry, an extra certificate, the CRL field, the content or a further content element, the other blob's signer entries appended / prepended, trailing fields of SignedData and of the content info, a second SignedData). Every case is non-trivial; distinct = distinct (blob, certificate).",
 		Assume: []string{"x509.ParseCertificates and Certificate.CheckSignature are opaque Go library code; RSA/SHA-256 on the model side are the executable Lean implementations, compared with Go's verdict on every case"},
 		Eval:   c04Eval, Gen: c04Gen,
 	})
